@@ -30,7 +30,13 @@ def main(path):
   if fn is None:
     print('no replay function for unit %s' % rec['unit'])
     return 0
-  confirmed, text = fn(rec.get('witness') or {}, rec)
+  try:
+    confirmed, text = fn(rec.get('witness') or {}, rec)
+  except Exception as e:        # e.g. no witness and the replay needs one
+    if rec.get('witness'):
+      raise
+    print('replay needs a witness and the solver gave none (%s: %s)' % (type(e).__name__, e))
+    return 0
   print(text)
   print('REPLAY %s unit=%s obligation=%s' % ('CONFIRMED' if confirmed else 'NOT-REPRODUCED', rec['unit'], rec['obligation']))
   return 10 if confirmed else 0
